@@ -230,7 +230,7 @@ def _check_count(case, a_in, prev, rec, out, where):
         out.append(('exhausted_pile_removed', f'{where}: the exhausted pile disappeared'))
     if any(h is not None and h not in keys_in for h in keys_out):
         out.append(('candidate_resurrected', f'{where}: keys {keys_out} from {keys_in}'))
-    spent = (q * sum(elected.values())) if elected else 0
+    spent = (q * sum(elected.values())) if (elected and q is not None) else 0
     if _held(a_out) + spent != _held(a_in):
         out.append(('conservation', f'{where}: held {_held(a_in)} -> {_held(a_out)} + {spent} for seats'))
     removed = [h for h in keys_in if h is not None and h not in keys_out]
@@ -299,7 +299,7 @@ def _oracle_trace(case, obs):
         state = rec['alloc']
         _check_state(state, out, f'after {where}')
         q = Fraction(rec['quota']) if rec['quota'] is not None else None
-        spent = q * by_quota if by_quota else 0
+        spent = q * by_quota if (by_quota and q is not None) else 0
         if _held(state) + empty + spent != V:
             out.append(('conservation', f'after {where}: held {_held(state)} + exhausted-empty {empty} + {by_quota} x quota {q} != cast {V}'))
     return out
